@@ -109,6 +109,28 @@ check("C08",
       "Lean 4 proofs on the re-serialisation core + differential correspondence + history exploration with two independent readers",
       "DESIGN.md §4 C08")
 
+check("C01",
+      "Theorems (Lean, unbounded): the 7zAES residue buffers feed the cipher the stream exactly once, in order, in whole "
+      "blocks, zero-padded, for every chunking (writer) / every chunking into >=1-block pieces (reader); chunked decoding "
+      "with the carry-over buffer loses/duplicates nothing for every decoder and request sequence; cutting a folder's "
+      "output by the stored sizes returns the members; names round-trip through the UTF-16 table. Tied by the aes "
+      "(recording cipher) and dec (scripted decoders) streams. The end-to-end claim is explored: member lists x every "
+      "supported documented chain (+/-AES) x header mode x path/BytesIO/buffered/multi-volume(64..) x I/O block "
+      "{17,64,4096,default} x extraction chunk {1,7,4096,default}, each in a child process. Partial: codec correctness, "
+      "multivolumefile and OS are parameters; F17 is an open known finding.",
+      "Lean 4 invariant proofs (AES residue buffers, carry-over buffer, sub-stream split) + differential correspondence + configuration-grid exploration",
+      "DESIGN.md §4 C01")
+check("C10",
+      "Theorems (Lean): method_names = exactly the display names of the coder ids present, each once, in priority order; "
+      "every table name is displayable (counter-example for the pinned list: Delta/Brotli dropped, repaired); "
+      "needs_password() iff an AES coder is present or a password was supplied; solid iff some folder has >1 stream. "
+      "Tied by the ls stream on real archives (ground truth for folders/coders from the independent reader). Listing "
+      "calls are compared with what extraction delivers (sizes, CRCs, directory-ness), getinfo with/without slash and "
+      "absent names, totals/blocks/archive size, over py7zr histories incl. mixed encrypted+plain sessions, reference-"
+      "writer layouts and fixtures.",
+      "Lean 4 proofs of the summary logic + differential correspondence + listing-vs-extraction exploration",
+      "DESIGN.md §4 C10")
+
 ALL = ["C%02d" % i for i in range(1, 21)]
 REASON_PENDING = "not yet claimed in this revision: model/theorems/correspondence for it are still being built (see DESIGN.md §8.3 staging)"
 
